@@ -416,3 +416,113 @@ def k3_print_error(res, tier):
     summarize_paths(res, e, results, lambda r: r.info if isinstance(r.info, dict) else None, key_prefix='C18.K3:', unwind_ok=False)
     for fd in res.findings:
         fd.replay = F27_REPLAY
+
+
+# ---------------------------------------------------------------------------------------------- K3 positions of an uncaught error's traceback
+F59_SRC = ('class MyErr : Error {}\nfn inner() {\n  raise Error("boom");\n}\nfn mid() {\n  try {\n    inner();\n  } catch e: MyErr {\n    print("wrong");\n  }\n'
+           '  print("not here");\n}\nfn outer() {\n  mid();\n}\nouter();\n')
+F59_REPLAY = dict(kind='lay', source=F59_SRC, bad_re=r'main\.lay:(8|9|10|11) in mid\(\)',
+                  note='the catch clause of mid does not match; the traceback must name line 7 (the call of inner) for mid')
+
+
+@obligation('C18.K3.uncaught_traceback_positions', 'C18', programs=('vm',))
+def k3_traceback_positions(res, tier):
+    """Fiber::print_error for a fiber with 1..3 frames of which the innermost 0..n were already covered by the search for a handler
+    (their positions at the moment of the raise are in backtrace_ips, C18.K1; their frame ips have since been moved into catch
+    clauses that did not match): the line printed for every frame is looked up at the position the frame had when the error was
+    raised — the recorded one where the search recorded it, the frame's own ip otherwise"""
+    from .vmabs import AbsObj
+    P = get_program('vm')
+    e = Engine(P, loop_bound=6, timeout_s=180, max_depth=50)
+    W = VmWorld(e, P)
+    W.havoc_objects(e)
+    install_gc_refs(e, exclude=('Fiber',))
+    f = P.lookup('fiber::Fiber::print_error')
+    e.allow_havoc(r'write_fmt$', r'^<.* as (std::io::|core::fmt::)?Write>::\w+$', r'^(std::borrow::|alloc::borrow::)?ToOwned::to_owned$',
+                  r'^<.* as (std::borrow::|alloc::borrow::)?ToOwned>::to_owned$', r'^<.* as (std::cmp::|core::cmp::)?PartialEq.*>::(eq|ne)$')
+
+    def m_offset_from(e_, a, c):
+        p = a[0]
+        while isinstance(p, Ref):
+            p = p.cell.get(e_)
+        if isinstance(p, SeqPtr):
+            return p.idx
+        raise Unsupported('offset_from of ' + type(p).__name__)
+    e.model(r'^(std|core)::ptr::(mut_ptr|const_ptr)::<impl \*(mut|const) .*>::(offset_from|offset_from_unsigned|sub_ptr)$', m_offset_from)
+
+    def m_get_line(e_, a, c):
+        e_.path_state['lookups'].append(a[1])
+        return z3.BitVec(e_.fresh_name('line'), 32)
+    e.model(r'^(laythe_core::)?(chunk::)?Chunk::get_line$', m_get_line)
+
+    def m_name_eq(e_, a, c):
+        return e_.fork_bool(z3.Bool(e_.fresh_name('name_is_script'))) if False else False
+    e.model(r'^core::str::traits::<impl (std::cmp::|core::cmp::)?PartialEq for str>::(eq|ne)$', m_name_eq)
+    e.model(r'^<str as (std::cmp::|core::cmp::)?PartialEq>::(eq|ne)$', m_name_eq)
+    fib_sd = P.struct_def('fiber::Fiber')
+    ix = {n: i for i, (n, _) in enumerate(fib_sd.fields)}
+    cf_sd = P.struct_def('fiber::call_frame::CallFrame')
+    cfi = {n: i for i, (n, _) in enumerate(cf_sd.fields)}
+    NF = 3
+    res.bounds = {'frames': f'1..{NF}', 'frames covered by the search': '0..frames (innermost first)', 'positions': 'any offsets into the instructions'}
+    res.assumptions = ['backtrace_ips holds, innermost first, the position each covered frame had when the error was raised (C18.K1.pause_unwind)',
+                       'a frame ip points into the instructions of the frame\'s function (C04.K2 / C06.K1): positions are offsets from its start',
+                       'the error message is a string (other values: C18.K3.print_error_total)']
+
+    def path(e):
+        st = W.fresh_state(e)
+        e.path_state['casts'] = []
+        e.path_state['lookups'] = []
+        fiber = st.fiber
+        nfv = z3.BitVec('n_frames', 64)
+        e.add_constraint(z3.And(z3.UGE(nfv, 1), z3.ULE(nfv, NF)))
+        nf = e.concretize(nfv, list(range(1, NF + 1)))
+        nbv = z3.BitVec('n_recorded', 64)
+        e.add_constraint(z3.ULE(nbv, nf))
+        nb = e.concretize(nbv, list(range(nf + 1)))
+        cells, now, raised = [], [], []
+        for i in range(nf):             # frame i counted from the bottom
+            fr = Struct('fiber::call_frame::CallFrame', None, NameBacking(f'tb_frame{i}'))
+            code = e.fresh_seq('u8', NameBacking(f'tb_code{i}'), z3.BitVec(f'tb_code{i}_len', 64))
+            ipn = z3.BitVec(f'ip_now{i}', 64)
+            e.add_constraint(z3.ULT(ipn, 1 << 32))
+            fr.f[cfi['ip']] = Cell(SeqPtr(code, ipn))
+            cells.append(Cell(fr))
+            now.append((code, ipn))
+        fiber.f[ix['frames']] = Cell(AbsUVec(ConcSeq('fiber::call_frame::CallFrame', cells), bv(nf, 64)))
+        recs = []
+        for k in range(nb):             # k-th recorded position belongs to the k-th frame from the top
+            code, _ = now[nf - 1 - k]
+            r = z3.BitVec(f'ip_at_raise{k}', 64)
+            e.add_constraint(z3.ULT(r, 1 << 32))
+            recs.append(Cell(SeqPtr(code, r)))
+            raised.append(r)
+        fiber.f[ix['backtrace_ips']] = Cell(AbsUVec(ConcSeq('*const u8', recs), bv(nb, 64)))
+        err = AbsObj(z3.BitVec('error', 64), 'Instance')
+        e.add_constraint(kind_of(err.id) == P.enum_def('laythe_core::object::ObjectKind').vindex['Instance'])
+        e.call(f, [Ref(Cell(fiber)), Ref(Cell(Opaque('dyn Write', 'log'))), err])
+        looks = e.path_state['lookups']
+        e.check(len(looks) == nf, 'print_error: one line is looked up per frame', {'lookups': len(looks), 'frames': nf})
+        for k, off in enumerate(looks[:nf]):
+            want = raised[k] if k < nb else now[nf - 1 - k][1]
+            want = z3.If(want == 0, want, want - 1)          # the byte before the position (saturating)
+            e.check(off == want, 'print_error: the line of a frame is looked up at the position the frame had when the error was raised',
+                    {'frame from the top': k, 'covered by the handler search': k < nb})
+        return {'frames': nf, 'recorded': nb}
+    results = e.explore(path)
+    seen = False
+    for r in results:
+        for lab, ok, info in list(r.checks):
+            if not ok and 'position the frame had' in lab:
+                if not seen:
+                    seen = True
+                    res.fail('C18.K3:uncaught traceback uses the moved ip of frames whose catch clause did not match',
+                             'print_error reads every frame\'s current ip; a frame whose catch clause was evaluated and did not match has its ip inside that clause, '
+                             'so the traceback names the line of the catch clause instead of the call that was active when the error was raised', info, replay=F59_REPLAY)
+                r.checks.remove((lab, ok, info))
+        if r.kind in ('oob', 'unreachable', 'ub', 'diverge', 'depth', 'panic'):
+            s = str(r.info)
+            if r.kind == 'panic' and not ('Expected' in s or 'value.rs' in s):
+                continue
+            res.fail(f'C18.K3:traceback_positions:{r.kind}', f'print_error: path ends in {r.kind}: {s[:200]}', {'path': s})
+    summarize_paths(res, e, results, lambda r: r.info if isinstance(r.info, dict) else None, key_prefix='C18.K3:positions:', unwind_ok=False)
